@@ -88,6 +88,8 @@ pub struct Model {
     pub receiver: (f64, f64),
     pub max_range: f64,
     recs: BTreeMap<u32, Rec>,
+    /// addresses that were removed by expiry at least once (C15: heard again = newly added, fresh record)
+    expired: std::collections::BTreeSet<u32>,
     pub now_ns: i128,
     pub stats: ModelStats,
 }
@@ -118,7 +120,7 @@ fn pos_close(a: (f64, f64), b: (f64, f64)) -> bool {
 
 impl Model {
     pub fn new(receiver: (f64, f64), max_range: f64) -> Self {
-        Self { receiver, max_range, recs: BTreeMap::new(), now_ns: 0, stats: ModelStats::default() }
+        Self { receiver, max_range, recs: BTreeMap::new(), expired: Default::default(), now_ns: 0, stats: ModelStats::default() }
     }
 
     pub fn tracked(&self) -> Vec<u32> {
@@ -132,6 +134,29 @@ impl Model {
     /// Apply `ev`, compare with what the real tracker did (`added`: whether it
     /// reported the aircraft as newly added; `obs`: snapshot after the call).
     pub fn step(&mut self, ev: &Event, added: bool, obs: &Snapshot) -> Vec<Disagreement> {
+        let mut out = self.step_inner(ev, added, obs);
+        // C15: an expired aircraft that is heard again is reported as newly added and starts from
+        // an empty record — disagreements about such a frame are expiry disagreements too
+        if let Event::Es { addr, .. } = ev {
+            if self.expired.contains(addr) && self.recs.get(addr).map_or(false, |r| r.num_messages == 1) {
+                let tag = format!("addr {addr:06x}");
+                let extra: Vec<Disagreement> = out
+                    .iter()
+                    .filter(|d| d.prop != "C15" && d.detail.contains(&tag))
+                    .map(|d| Disagreement {
+                        prop: "C15",
+                        clause: if d.clause == "added_iff_new" { "readded_not_reported_as_added" } else { "readded_record_not_fresh" },
+                        detail: format!("first frame after expiry: {} ({}|{})", d.detail, d.prop, d.clause),
+                    })
+                    .collect();
+                out.extend(extra);
+                self.stats.readded += 1;
+            }
+        }
+        out
+    }
+
+    fn step_inner(&mut self, ev: &Event, added: bool, obs: &Snapshot) -> Vec<Disagreement> {
         let mut out = Vec::new();
         match ev {
             Event::NonEs => {
@@ -166,6 +191,35 @@ impl Model {
             }
         }
         self.compare(obs, &mut out);
+        out
+    }
+
+    /// Like `step` for non-position events but without the record-by-record comparison
+    /// (used on very large tracked sets, where a full comparison follows every N steps).
+    pub fn step_without_comparison(&mut self, ev: &Event, added: bool, _obs: &Snapshot) -> Vec<Disagreement> {
+        let mut out = Vec::new();
+        match ev {
+            Event::NonEs => {
+                if added {
+                    out.push(Disagreement { prop: "C12", clause: "non_es_added", detail: "non extended-squitter frame reported as added".into() });
+                }
+            }
+            Event::Es { addr, payload } => {
+                let was_tracked = self.recs.contains_key(addr);
+                if added == was_tracked {
+                    out.push(Disagreement { prop: "C12", clause: "added_iff_new", detail: format!("addr {addr:06x}: added={added} but tracked-before={was_tracked}") });
+                }
+                let now = self.now_ns;
+                let rec = self.recs.entry(*addr).or_default();
+                rec.num_messages += 1;
+                rec.last_heard_ns = now;
+                match payload {
+                    Payload::Ident(cs) => rec.callsign = Some(cs.clone()),
+                    Payload::Velocity(Some(v)) => rec.vel = Some(*v),
+                    _ => {}
+                }
+            }
+        }
         out
     }
 
@@ -382,6 +436,7 @@ impl Model {
                 });
             }
             self.recs.remove(a);
+            self.expired.insert(*a);
             self.stats.pruned += 1;
         }
         let survivors: Vec<u32> = self.recs.keys().copied().collect();
